@@ -89,7 +89,7 @@ func c09(c *Ctx) {
 	// random composite queries
 	g := &qgen{c: c}
 	strs := []string{"", "a", "a b", "q\\\"q", "x\\ny", "t\\tt", "\\\\", "é", "日本語", "😀", "a/b", "it's", "50%", "\\d+", "a\\\\nb"}
-	nRand := c.N(5000, 150000)
+	nRand := c.N(20000, 300000)
 	for i := 0; i < nRand; i++ {
 		q := g.randQuery(3)
 		// sprinkle richer literals
